@@ -17,8 +17,8 @@ import (
 // C07 — plan space accounting matches the files actually held.
 type C07 struct{}
 
-var c07Files = map[string]*sfile{"400": mkFile(seqBytes(9, 4), 1024), "600": mkFile(seqBytes(9, 6), 1024)}
-var c07Size = map[string]int64{"400": 400_000_000, "600": 600_000_000}
+var c07Files = map[string]*sfile{"400": mkFile(seqBytes(9, 4), 1024), "600": mkFile(seqBytes(9, 6), 1024), "max": mkFile(seqBytes(9, 9), 1024)}
+var c07Size = map[string]int64{"400": 400_000_000, "600": 600_000_000, "max": 1<<63 - 1}
 var c07Users = []string{"U1", "U2"}
 
 type c07Model struct {
@@ -51,7 +51,7 @@ func (C07) Events(env world.Env, mm mc.Model) []string {
 				evs = append(evs, "Post:"+u+":"+s+":1", "Post:"+u+":"+s+":2")
 			}
 		}
-		evs = append(evs, "PostOnce:U1:400:1")
+		evs = append(evs, "PostOnce:U1:400:1", "Post:U1:max:1") // the largest size stateless validation accepts
 	}
 	for _, id := range m.Files {
 		fp := strings.Split(id, "|")
